@@ -293,8 +293,8 @@ class DetectorConvergenceCondition(StoppingCondition):
         converged: jnp.ndarray = jnp.array(False, dtype=bool)
         readings: jax.Array = next(iter(arrays.detector_states[self.detector_name].values()))
 
-        # Always continue if below minimum steps, always stop if at end_step
-        time_condition = curr_time_step < config.time_steps_total
+        # Always continue if below minimum steps, always stop at max_steps (hard cutoff) or the total
+        time_condition = curr_time_step < min(self.max_steps, config.time_steps_total)
         min_steps_condition = curr_time_step >= min_steps
 
         # Wrapping this in a func so we don't compute it until min_steps_condition == True
